@@ -663,6 +663,33 @@ func (w *world) nodeOp(r *xp.Req, resp *xp.Resp) {
 			return
 		}
 		resp.Answers = <-ch
+	case "node-stream":
+		// background stream of insertions with an append-only journal (survives SIGKILL:
+		// the page cache does): "S <i>" before sending bulk i, "A <i> <firstVersion>" after its ack
+		f, err := os.OpenFile(r.Path, os.O_CREATE|os.O_WRONLY|os.O_APPEND, 0o644)
+		if err != nil {
+			resp.Err = err.Error()
+			return
+		}
+		bulks := r.Chunks // each chunk: newline-separated events of one call
+		go func() {
+			for i, c := range bulks {
+				var evs [][]byte
+				for _, e := range bytes.Split(c, []byte("\n")) {
+					if len(e) > 0 {
+						evs = append(evs, e)
+					}
+				}
+				fmt.Fprintf(f, "S %d\n", i)
+				ss, err := n.AddBulk(evs)
+				if err != nil || len(ss) == 0 {
+					fmt.Fprintf(f, "E %d %v\n", i, err)
+					return
+				}
+				fmt.Fprintf(f, "A %d %d\n", i, ss[0].Version)
+			}
+			fmt.Fprintf(f, "DONE\n")
+		}()
 	case "node-handed":
 		time.Sleep(30 * time.Millisecond)
 		h.mu.Lock()
